@@ -35,6 +35,10 @@ ALLOWED_AXIOMS = {
 }
 
 
+# properties whose Props file imports Gen/GoFuncs.v (functions translated from the Go text by golite)
+GEN_USERS = {"C03", "C12", "C13", "C18"}
+
+
 class EnvError(Exception):
     """The environment (not the property) is broken: toolchain, /repo does not compile..."""
 
@@ -387,6 +391,14 @@ class Ctx:
     # -- the proof step shared by all checks
     def prove(self, extra_targets=()):
         pid = self.pid
+        if pid in GEN_USERS:
+            # T2: the translated Go functions (coq/Gen/GoFuncs.v) are regenerated from the tree under
+            # test before the proofs that mention them are rebuilt
+            gen = regen_gen()
+            self.cov["generated_from_source"] = gen.get("GoFuncs", gen)
+            rej = (gen.get("GoFuncs") or {}).get("rejected") or {}
+            if rej:
+                self.cov["untranslatable"] = rej
         ok, log = coq_make(["Props/%s.vo" % pid] + list(extra_targets))
         bad = hygiene()
         if bad:
